@@ -466,7 +466,7 @@ func c18Run(r *core.Run) {
 			}
 		}
 		for i := w; i < total; i += nw {
-			if i%2048 == 0 && r.Expired() {
+			if (i/nw)%128 == 0 && r.Expired() {
 				return
 			}
 			s := strAt(i)
